@@ -1,11 +1,11 @@
 (* Codec/Extract.v — extraction of the executable codec model for the correspondence runner.
    ExtrOcamlBasic only: bool, option, unit, list, prod, sumbool, sumor -> OCaml natives; N/Z/positive/nat stay Coq datatypes. *)
 From Coq Require Import Extraction ExtrOcamlBasic.
-From Codec Require Import Schema Readers Model Spec GenSchemas TotalWr Hand Alloc.
+From Codec Require Import Schema Readers Model Spec GenSchemas TotalWr Hand Alloc WirePlan.
 Extraction Language OCaml.
 Extraction "codec_model.ml"
   encode enc_len decode decode_wire wf_value schema_wf all_schemas n_models critical
-  b_read_name w_read_name name_from_bytes comp_from_bytes parse_nat decode_alloc kcoef smax
+  b_read_name w_read_name name_from_bytes comp_from_bytes parse_nat decode_alloc kcoef smax encode_wire wire_plan inc_of all_inc flat_fields
   br_readbyte br_readn br_readbuf br_readwire br_skip br_range br_delegate br_pos br_len br_of
   pr_pos pr_len pr_readbyte pr_readn pr_readbuf pr_readwire pr_skip pr_range pr_delegate
   N.add N.mul N.of_nat N.to_nat N.eqb N.ltb N.div N.modulo Z.of_N Z.to_N Z.of_nat Z.to_nat Z.add Z.opp Z.ltb.
